@@ -65,6 +65,10 @@ pub enum Mech {
     Plain,
     Curve,
     Unknown,
+    /// the 20-octet mechanism field is all zero (an empty name)
+    Empty,
+    /// 20 name characters, no NUL padding at all
+    Unpadded,
 }
 
 #[derive(Debug, Clone, Copy, Serialize, Deserialize, PartialEq, Eq, Hash)]
@@ -127,7 +131,7 @@ impl Cell {
         if self.version.0 < 3 {
             return (false, "version below 3.0");
         }
-        if self.mech == Mech::Unknown {
+        if matches!(self.mech, Mech::Unknown | Mech::Empty | Mech::Unpadded) {
             return (false, "unknown mechanism");
         }
         if self.first != First::Ready {
@@ -155,6 +159,8 @@ impl Cell {
             Mech::Plain => b"PLAIN".to_vec(),
             Mech::Curve => b"CURVE".to_vec(),
             Mech::Unknown => b"GSSAPI".to_vec(),
+            Mech::Empty => vec![],
+            Mech::Unpadded => b"NULLNULLNULLNULLNULL".to_vec(),
         };
         match self.sig {
             Sig::Ok => {}
@@ -350,7 +356,7 @@ pub fn grid() -> Vec<Cell> {
     for local in ALL_KINDS {
         for pt in &types {
             for version in [(1u8, 0u8), (2, 1), (3, 0), (3, 1), (4, 0)] {
-                for mech in [Mech::Null, Mech::Plain, Mech::Curve, Mech::Unknown] {
+                for mech in [Mech::Null, Mech::Plain, Mech::Curve, Mech::Unknown, Mech::Empty, Mech::Unpadded] {
                     for sig in [Sig::Ok, Sig::Byte0Wrong, Sig::Byte9Wrong] {
                         for ident in [Ident::Absent, Ident::Empty, Ident::Len(1), Ident::Len(255), Ident::Len(256)] {
                             for first in [First::Ready, First::OtherCommand, First::Message] {
@@ -418,7 +424,7 @@ pub fn run(ctx: &Ctx) -> (Report, PropertyMeta) {
     let g = grid();
     let r = run_cases(ctx, "cell", &g, cell_outcome);
     report.exhaustive_parts.push(format!(
-        "full grid: 9 local types x 14 peer Socket-Type values (12 names, unknown, missing) x 5 versions x 4 mechanisms x 3 signature variants x 5 identity options x 3 first items = {} scripted raw peers",
+        "full grid: 9 local types x 14 peer Socket-Type values (12 names, unknown, missing) x 5 versions x 6 mechanism fields (NULL, PLAIN, CURVE, unknown name, empty, 20 characters without padding) x 3 signature variants x 5 identity options x 3 first items = {} scripted raw peers",
         g.len()
     ));
     report.merge(r);
@@ -455,7 +461,7 @@ pub fn run(ctx: &Ctx) -> (Report, PropertyMeta) {
                 local,
                 peer_type: pt,
                 version: s.pick(&[(3u8, 0u8), (3, 0), (3, 1), (3, 255), (4, 0), (255, 0), (2, 255), (0, 0)]),
-                mech: s.pick(&[Mech::Null, Mech::Null, Mech::Plain, Mech::Curve, Mech::Unknown]),
+                mech: s.pick(&[Mech::Null, Mech::Null, Mech::Null, Mech::Plain, Mech::Curve, Mech::Unknown, Mech::Empty, Mech::Unpadded]),
                 sig: s.pick(&[Sig::Ok, Sig::Ok, Sig::Ok, Sig::Byte0Wrong, Sig::Byte9Wrong]),
                 ident: match s.below(6) {
                     0 => Ident::Absent,
